@@ -291,8 +291,74 @@ C04.vis: parts that are not PER-visible (X.691 10.3.21; a PATTERN constraint sta
     serial(m, ctx, &consts);
     render(m, ctx, &consts);
     outer_marker(m, ctx);
+    size_flag(m, ctx);
     // "named numbers are resolved": in the governing type's scope (= C09.scope)
     crate::rules::c09::scope(m, ctx, "C04.scope");
+}
+
+/// C04.size: whether the emitted bound is a `size(..)` or a `value(..)` annotation is decided by the conversion of a constraint
+/// element into PerVisibleRangeConstraints (`is_size_constraint`). The conversion is evaluated on a value range, on SIZE of a
+/// range and on SIZE of a set operation: SIZE — and only SIZE — yields a size constraint, and the bounds are carried over.
+fn size_flag(m: &Model, ctx: &mut Ctx) {
+    use std::collections::BTreeMap as Map;
+    let Some(f) = m.fns.iter().find(|f| f.name == "try_from" && f.self_ty.as_deref() == Some("PerVisibleRangeConstraints") && f.sig.inputs.iter().any(|a| tok(a).contains("Option<&SubtypeElements>"))) else {
+        ctx.fail_closed("C04.size", "anchor not found: TryFrom<Option<&SubtypeElements>> for PerVisibleRangeConstraints");
+        return;
+    };
+    ctx.func(&f.key);
+    let consts = const_resolver(m);
+    let param = f.sig.inputs.iter().filter_map(|a| match a { syn::FnArg::Typed(t) => Some(tok(&t.pat)), _ => None }).next().unwrap_or("value".into());
+    let named = |n: &str, fields: Vec<(&str, Val)>| Val::Ctor(n.to_string(), vec![], fields.into_iter().map(|(k, v)| (k.to_string(), v)).collect::<Map<_, _>>());
+    let int = |v: i128| Val::some(Val::Ctor("Integer".into(), vec![Val::int(v)], Map::new()));
+    let range = |a: i128, b: i128| named("ValueRange", vec![("min", int(a)), ("max", int(b)), ("extensible", Val::Bool(false))]);
+    let block = f.block.clone();
+    let p2 = param.clone();
+    let hook = move |ev: &Evaluator, name: &str, a: &[Val]| -> Option<Result<Val, String>> {
+        if name.ends_with("::try_into") || name == ".try_into" {
+            // the conversion applied to an inner element: the same fn
+            let mut env = Env::new();
+            env.insert(p2.clone(), a.first().cloned().unwrap_or(Val::none()));
+            return Some(ev.eval_fn_body(&block, &mut env));
+        }
+        match name {
+            // the fold of `1..4 | 8`: the hull
+            "fold_constraint_set" => Some(Ok(Val::Ctor("Ok".into(), vec![Val::some(range(1, 8))], Map::new()))),
+            ".unwrap_as_integer" => match a.first() { Some(Val::Ctor(_, p, _)) => Some(Ok(Val::Ctor("Ok".into(), vec![p.first().cloned().unwrap_or(Val::Unit)], Map::new()))), _ => None },
+            ".as_ref" if a.len() == 1 => Some(Ok(a[0].clone())),
+            _ => None,
+        }
+    };
+    let ev = Evaluator { consts: &consts, call_hook: &hook, inline: None };
+    let element = |e: Val| Val::Ctor("Element".into(), vec![e], Map::new());
+    let setop = Val::Ctor("SetOperation".into(), vec![Val::Opaque("1..4 | 8".into())], Map::new());
+    let size = |inner: Val| Val::Ctor("SizeConstraint".into(), vec![inner], Map::new());
+    for (what, v, want_size, want) in [
+        ("(1..4)", range(1, 4), false, (1, 4)),
+        ("(SIZE (1..4))", size(element(range(1, 4))), true, (1, 4)),
+        ("(SIZE (1..4 | 8))", size(setop), true, (1, 8)),
+    ] {
+        ctx.oblige("C04.size", what, true);
+        let mut env = Env::new();
+        env.insert(param.clone(), Val::some(v));
+        match ev.eval_fn_body(&f.block, &mut env) {
+            Ok(Val::Ctor(ok, p, _)) if ok == "Ok" => match p.first() {
+                Some(Val::Ctor(_, _, fl)) => {
+                    let is_size = matches!(fl.get("is_size_constraint"), Some(Val::Bool(true)));
+                    let num = |k: &str| match fl.get(k) { Some(Val::Ctor(s, p, _)) if s == "Some" => match p.first() { Some(Val::Int { v, .. }) => Some(*v), _ => None }, _ => None };
+                    if is_size != want_size {
+                        ctx.violate("C04.size", "size-flag", &f.file, f.line,
+                            &format!("the constraint {} is converted with is_size_constraint = {}: a SIZE constraint is emitted as `size(..)`, a value range as `value(..)` — the wrong kind bounds the wrong quantity", what, is_size));
+                    }
+                    if (num("min"), num("max")) != (Some(want.0), Some(want.1)) {
+                        ctx.violate("C04.size", "size-bounds", &f.file, f.line, &format!("the constraint {} is converted to the bounds {:?}..{:?}, expected {}..{}", what, num("min"), num("max"), want.0, want.1));
+                    }
+                }
+                o => ctx.fail_closed("C04.size", &format!("[{}]: result {:?}", what, o.map(|x| x.show()))),
+            },
+            Ok(o) => ctx.fail_closed("C04.size", &format!("[{}]: result {}", what, o.show())),
+            Err(e) => ctx.fail_closed("C04.size", &format!("[{}]: {}", what, e)),
+        }
+    }
 }
 
 fn serial(m: &Model, ctx: &mut Ctx, consts: &dyn Fn(&str) -> Option<Val>) {
